@@ -21,11 +21,16 @@ def datahub_stage(v, sd, binary, name, *, ds, ent, contents, preds=("p",), max_b
                   kinds=("ent", "chg", "look"), limits=(0, 1, 2), readers=(), spec="SpecCreated", tables="plain",
                   adapters="go", invariants=CORE_INV, props=CORE_PROPS, classify=None, view="view",
                   sample=False, seed=None, fan=4, stride_extra=1, tlc_timeout=1500, heap="8g", inv_ref=True,
-                  per_world=400, rotate=False, target=None, track_pre=False, replay_fn=None):
-    """One TLC run of spec/Datahub.tla (exhaustive or simulation) + replay of everything it emitted."""
+                  per_world=400, rotate=False, target=None, track_pre=False, replay_fn=None, allowed=None,
+                  require_act=None):
+    """One TLC run of spec/Datahub.tla (exhaustive or simulation) + replay of everything it emitted.
+    allowed: the <<dataset, entity, content>> triples that may be written (None = all);
+    require_act: replay only the behaviours that contain this action (the others belong to other stages)."""
     consts = {"DsSeq": list(ds), "Ent": set(ent), "MaxBatch": max_batch, "MaxSteps": max_steps, "Acts": set(acts),
               "ObsKinds": set(kinds), "Limits": set(limits), "Fan": fan, "Precreated": spec.startswith("SpecCreated"), "Writable": set(ds), "TrackPre": track_pre, "Allowed": set(),
               "Readers": set() if not readers else verif.Raw("{" + ", ".join(verif.tla_value(r) for r in readers) + "}")}
+    if allowed:
+        consts["Allowed"] = verif.Raw("{" + ", ".join("<<%s, %s, %d>>" % (verif.tla_value(a), verif.tla_value(b), c) for a, b, c in allowed) + "}")
     constraint = "Emit"
     if sample:
         # deep sampled histories: BFS over NextSample (random Fan successors per state), history not hidden
@@ -35,8 +40,19 @@ def datahub_stage(v, sd, binary, name, *, ds, ent, contents, preds=("p",), max_b
                  view=view, contents=contents, preds=preds, constraint=constraint)
     out = os.path.join(v.wd, name + ".out")
     st = verif.run_tlc(sd, name, out, timeout=tlc_timeout, heap=heap, seed=seed if sample else None,
-                       workers=4 if sample else None)
+                       workers=1 if sample else None)
     v.add_tlc(st)
+    if require_act:
+        needle = '\\"a\\":\\"%s\\"' % require_act
+        kept = 0
+        with open(out, errors="replace") as src, open(out + ".f", "w") as dst:
+            for line in src:
+                if not line.startswith('<<"TRACE", ') or needle in line:
+                    dst.write(line)
+                    kept += line.startswith('<<"TRACE", ')
+        os.replace(out + ".f", out)
+        v.cov["stages"].append({"name": name + ":filtered", "emitted": st["emitted"], "with_" + require_act: kept})
+        st = dict(st, emitted=kept)
     if target and st["emitted"] > target:
         # bound the replay cost of sampled stages: replay every k-th emitted behaviour (recorded in the evidence)
         stride_extra = -(-st["emitted"] // target)
@@ -148,17 +164,36 @@ def rel_contents():
 def ref_combos(steps, contents):
     """(s, o) -> set of (pred, dataset) under which s referenced o at some point of the history."""
     out = {}
+    inc = {}       # dataset name -> incarnation (a name can be re-created, or given to another dataset by a rename)
+    fresh = [0]
+    def incarnation(ds):
+        if ds not in inc:
+            fresh[0] += 1
+            inc[ds] = "%s#%d" % (ds, fresh[0])
+        return inc[ds]
     def add(ds, b):
         for e, c in b:
             for q, (k, ts) in contents[c - 1]["refs"].items():
                 for o in ts:
-                    out.setdefault((e, o), set()).add((q, ds))
+                    out.setdefault((e, o), set()).add((q, incarnation(ds)))
     for st in steps:
         if st["a"] == "store":
             add(st["ds"], st["b"])
         elif st["a"] == "txn":
             for ds, b in st["m"]:
                 add(ds, b)
+        elif st["a"] == "create":
+            inc.pop(st["ds"], None)
+            incarnation(st["ds"])
+        elif st["a"] == "delete":
+            inc.pop(st["ds"], None)
+        elif st["a"] == "rename":
+            if st["ds"] in inc:
+                inc[st["to"]] = inc.pop(st["ds"])
+            else:
+                inc.pop(st["to"], None)
+                inc[st["to"]] = incarnation(st["ds"])
+                inc.pop(st["ds"], None)
     return out
 
 
@@ -410,6 +445,11 @@ def check_C20(tier, seed):
                   tables="plain,eqlen", kinds=kinds, limits=(0, 1), sample=True, seed=seed,
                   fan=5 if thorough else 4, classify=cl(mc), rotate=True, per_world=60,
                   target=10000 if thorough else 1500)
+    # the storage engine compacts its LSM tree between backup runs (dataset deletion, gc and re-creation around it)
+    datahub_stage(v, sd, binary, "C20_lsm", spec="SpecCreated", ds=["a", "b"], ent=["e1", "e2"], contents=mc[:2], max_batch=1,
+                  max_steps=5 if thorough else 4, acts=("store", "backup", "delete", "create", "gc", "lsm"), tables="plain",
+                  kinds=kinds, limits=(0,), classify=cl(mc[:2]), rotate=True, per_world=20, require_act="lsm",
+                  allowed=[("a", "e1", 1), ("b", "e1", 2)])
     v.assumptions = ["native backup mode (badger Backup/Load); restore = badger Load of datahub-backup.kv into an empty "
                      "directory followed by a normal hub start", "one fresh store per behaviour"]
     return v.finish(rule=RULE_REPLAY)
@@ -434,7 +474,7 @@ def jobs_stage(v, sd, binary, name, *, ds, ent, contents, jobs, writable, faults
                  props=() if sample else props, view=None if sample else "jview", contents=contents,
                  constraint="JEmit", header="JEmitHeader")
     out = os.path.join(v.wd, name + ".out")
-    st = verif.run_tlc(sd, name, out, timeout=tlc_timeout, seed=seed if sample else None, workers=4 if sample else None)
+    st = verif.run_tlc(sd, name, out, timeout=tlc_timeout, seed=seed if sample else None, workers=1 if sample else None)
     v.add_tlc(st)
     stride_extra = 1
     if target and st["emitted"] > target:
@@ -1235,7 +1275,7 @@ def ms_stage(v, sd, binary, name, *, main, deps, ds, ent, contents, allowed, pre
                  props=() if sample else ("MsProps",), view=None if sample else "mview", contents=contents, preds=preds,
                  constraint="Emit", header="MEmitHeader")
     out = os.path.join(v.wd, name + ".out")
-    st = verif.run_tlc(sd, name, out, seed=seed if sample else None, workers=4 if sample else None)
+    st = verif.run_tlc(sd, name, out, seed=seed if sample else None, workers=1 if sample else None)
     v.add_tlc(st)
     stride_extra = 1
     if target and st["emitted"] > target:
